@@ -34,10 +34,23 @@ func runC13(c *Ctx) {
 	c.L.Floor("C13.split.pipeline", 3)
 	c.L.Floor("C13.split.non-nil", 1)
 
-	if f := c.fn("stringutil", "ContainsFold"); f != nil {
+	if c13FoldExact(c) {
+		// decided exactly on short operands (c13exact.go): the shape rules are
+		// the fall-back for a function outside the evaluator's grammar
+		c.L.Floor("C13.fold.prefilter-complete", 0)
+		c.L.Floor("C13.fold.search-window", 0)
+		c.L.Floor("C13.fold.confirm", 0)
+	} else if f := c.fn("stringutil", "ContainsFold"); f != nil {
 		c13Fold(c, f)
 	}
-	if f := c.fn("stringutil", "SplitTrimmed"); f != nil {
+	if c13SplitExact(c) {
+		// the pipeline is decided exactly on short ASCII inputs (c13exact.go);
+		// non-nil-ness of the result stays a provenance rule
+		c.L.Floor("C13.split.pipeline", 0)
+		if f := c.fn("stringutil", "SplitTrimmed"); f != nil {
+			c13SplitNonNil(c, f)
+		}
+	} else if f := c.fn("stringutil", "SplitTrimmed"); f != nil {
 		c13Split(c, f)
 	}
 }
@@ -391,7 +404,11 @@ func c13Split(c *Ctx, f *ssa.Function) {
 		c.check(bad == "", "C13.split.pipeline", f, "every result is the filtered pieces or an empty literal", ret,
 			"a shortcut result bypasses the split / trim / drop-empty pipeline: "+bad)
 	}
-	// every returned slice is non-nil
+	c13SplitNonNil(c, f)
+}
+
+// c13SplitNonNil: every returned slice is non-nil.
+func c13SplitNonNil(c *Ctx, f *ssa.Function) {
 	for _, ret := range core.Returns(f) {
 		why, ok := nonNilSlice(ret.Results[0], map[ssa.Value]bool{}, 0)
 		c.check(ok, "C13.split.non-nil", f, "returned slice is non-nil: "+core.Describe(ret.Results[0]), ret, "callers distinguish nil from empty (JSON null vs []): "+why)
@@ -431,7 +448,9 @@ func nonNilSlice(v ssa.Value, seen map[ssa.Value]bool, depth int) (string, bool)
 			return nonNilSlice(x.Call.Args[0], seen, depth+1)
 		case n == "strings.Split" || n == "strings.SplitN":
 			return "strings.Split never returns nil", true
-		case strings.HasPrefix(n, "slices.Clip"), strings.HasPrefix(n, "slices.Grow"):
+		case strings.HasPrefix(n, "slices.Clip"), strings.HasPrefix(n, "slices.Grow"),
+			strings.HasPrefix(n, "slices.DeleteFunc"), strings.HasPrefix(n, "slices.Delete["), strings.HasPrefix(n, "slices.Compact"):
+			// s[:n] of the argument
 			return nonNilSlice(x.Call.Args[0], seen, depth+1)
 		}
 		if cal := x.Call.StaticCallee(); cal != nil && core.InModule(cal) && len(cal.Blocks) > 0 {
